@@ -361,6 +361,10 @@ def rule_id_corpus(repo, tier, R):
                                 continue
                             R.check(not e and not eeq, rule, "corpus|%s" % w.name, "every constant equals that of the same declaration with the disabled items deleted: %s" % decl[:160],
                                     "declaration `%s` does not behave like the same declaration with its cfg-disabled items deleted and its enabled items unannotated: %s" % (decl[:300], ((e or []) + (eeq or []) + [""])[0][:200]), None)
+                            # the discriminant rule ranges over the *enabled* items of every declaration: ids that differ from those of the
+                            # plain twin (which C15-R8 judges against the oracle) break C15 as well as C16
+                            R.check(not e and not eeq, "C15-R9", "corpus-cfg|%s" % w.name, "the enabled items carry the ids the discriminant rule gives them when the disabled ones are ignored: %s" % decl[:160],
+                                    "declaration `%s`: the ids of the enabled items are not those the discriminant rule assigns over the enabled items alone: %s" % (decl[:300], ((e or []) + (eeq or []) + [""])[0][:200]), None)
                             continue
                         R.check(not e, rule, "corpus|%s" % w.name, "%d const witnesses hold: %s" % (len(exp), decl[:160]),
                                 "declaration `%s` : the generated ids / items differ from the independent oracle or the valid declaration is rejected: %s" % (decl[:300], (e or [""])[0][:200]), None)
@@ -455,6 +459,9 @@ def gen_queries(wname, rng, count, with_cfg):
             pred = None
             if with_cfg and p[0] != "of" and rng.random() < 0.6:
                 pred = rng.choice([q for q, _ in PREDS])
+                if rng.random() < 0.3:
+                    # several #[cfg] attributes on one parameter = their conjunction
+                    pred = (pred, rng.choice([q for q, _ in PREDS]))
             ps.append((p, pred))
         if not ps:
             continue
@@ -472,7 +479,7 @@ def query_oracle(wname, ps):
     """-> {archetype: {param index: bound component}} for the matched archetypes, or raises Reject."""
     truth = dict(PREDS)
     world = world_enabled(wname)
-    live = [(i, p) for i, (p, pred) in enumerate(ps) if pred is None or truth[pred]]
+    live = [(i, p) for i, (p, pred) in enumerate(ps) if all(truth[q] for q in plist(pred))]
     for (an, comps) in world:
         for i, p in live:
             if p[0] == "of" and len([c for c in p[1] if c in comps]) >= 2:
@@ -501,7 +508,7 @@ def query_oracle(wname, ps):
 def reduce_query(ps):
     """the query with every disabled parameter deleted and every #[cfg] removed: ([(p, None)], original indices)"""
     truth = dict(PREDS)
-    keep = [(i, p) for i, (p, pred) in enumerate(ps) if pred is None or truth[pred]]
+    keep = [(i, p) for i, (p, pred) in enumerate(ps) if all(truth[q] for q in plist(pred))]
     return [(p, None) for _, p in keep], [i for i, _ in keep]
 
 
@@ -523,7 +530,7 @@ def param_src(i, p, pred):
         ty = "&EntityDirect<%s>" % p[1]
     elif p[0] == "of":
         ty = "&OneOf<%s>" % ", ".join(p[1])
-    return "%sp%d: %s" % ("#[cfg(%s)] " % pred if pred else "", i, ty)
+    return "%sp%d: %s" % ("".join("#[cfg(%s)] " % q for q in plist(pred)), i, ty)
 
 
 def query_source(n, kind, wname, ps, exp, idxs=None, wty="W"):
@@ -539,7 +546,7 @@ def query_source(n, kind, wname, ps, exp, idxs=None, wty="W"):
         body.append("allow::<%d, MatchedArchetype>();" % n)
         for k_, (p, pred) in enumerate(ps):
             i = idxs[k_]
-            if pred is not None and not truth[pred]:
+            if not all(truth[q] for q in plist(pred)):
                 continue
             t = {"ew": "&Entity<MatchedArchetype>", "ea": "&EntityAny", "dw": "&EntityDirect<MatchedArchetype>", "da": "&EntityDirectAny"}.get(p[0])
             if p[0] == "c":
@@ -683,6 +690,10 @@ def rule_query_corpus(repo, tier, R):
                             else:
                                 R.check(not e, rule, "qcorpus|" + desc, "behaves like the same query with the disabled parameters deleted (archetypes %s)" % exp,
                                         "%s does not behave like the same query with its cfg-disabled parameters deleted (which is expanded for %s): %s" % (desc, exp, (e or [""])[0][:260]), None)
+                                # the parameter list a query acts on is the list of its *enabled* parameters: a decorated query that is not
+                                # expanded for the archetypes its enabled parameters select breaks C05 as well as C16
+                                R.check(not e, "C05-R10", "qcorpus-cfg|" + desc, "expanded for exactly the archetypes its enabled parameters select (%s)" % exp,
+                                        "%s is not expanded for exactly the archetypes its enabled parameters select (%s): %s" % (desc, exp, (e or [""])[0][:260]), None)
                         else:
                             if not er:
                                 R.note("C16 query corpus: the reduced twin of `%s` is accepted although the oracle rejects it; left to C05" % desc[:80])
